@@ -178,6 +178,18 @@ func hist(ctx *common.Ctx, s *gen.Spec) (nontrivial bool, key string) {
 			}
 		}
 	}
+	// member kinds of the sub-language on which Coq proves denote = canon (Front/Canon.v sub_member)
+	inSub := true
+	for _, b := range s.Blocks() {
+		for _, m := range b.Members {
+			if m.Kind == gen.MRest || m.Kind == gen.MSubscribe {
+				inSub = false
+			}
+		}
+	}
+	if inSub {
+		ctx.Hist("canon:in-sub-language")
+	}
 	ctx.Hist(fmt.Sprintf("depth:%d", maxd))
 	return nm >= 2 || ns >= 2, fmt.Sprintf("%d/%d/%d/%d", nb, nm, ns, maxd)
 }
@@ -254,7 +266,7 @@ func main() {
 		ctx.Finish()
 		return
 	}
-	nFull, nStaged, perFile := 200, 84, 19
+	nFull, nStaged, perFile := 150, 70, 15
 	if ctx.Thorough() {
 		nFull, nStaged, perFile = 3000, 900, 100
 	}
